@@ -546,6 +546,20 @@ impl UndoLayerChange {
     }
 }
 
+/// Copies the cells of a snapshot that is as large as the layer back into the layer. Everything outside
+/// the layer size (content that is hidden because the layer was made smaller) is not part of the
+/// snapshot and stays as it is.
+fn restore_cells(layer: &mut Layer, snapshot: &Layer) {
+    for y in 0..snapshot.get_height() {
+        if layer.lines.len() <= y as usize {
+            layer.lines.resize(y as usize + 1, Line::default());
+        }
+        for x in 0..snapshot.get_width() {
+            layer.lines[y as usize].set_char(x, snapshot.get_char((x, y)));
+        }
+    }
+}
+
 impl UndoOperation for UndoLayerChange {
     fn get_description(&self) -> String {
         String::new() // No stand alone operation.
@@ -554,7 +568,7 @@ impl UndoOperation for UndoLayerChange {
     fn undo(&mut self, edit_state: &mut EditState) -> EngineResult<()> {
         if let Some(layer) = edit_state.buffer.layers.get_mut(self.layer) {
             if layer.get_size() == self.old_chars.get_size() {
-                layer.lines = self.old_chars.lines.clone();
+                restore_cells(layer, &self.old_chars);
             } else {
                 layer.stamp(self.pos, &self.old_chars);
             }
@@ -567,7 +581,7 @@ impl UndoOperation for UndoLayerChange {
     fn redo(&mut self, edit_state: &mut EditState) -> EngineResult<()> {
         if let Some(layer) = edit_state.buffer.layers.get_mut(self.layer) {
             if layer.get_size() == self.new_chars.get_size() {
-                layer.lines = self.new_chars.lines.clone();
+                restore_cells(layer, &self.new_chars);
             } else {
                 layer.stamp(self.pos, &self.new_chars);
             }
